@@ -47,6 +47,13 @@ func c07Kinds() []c07Kind {
 			c07Prep(fs)
 			return fs, func() []SnapEntry { return Snapshot(fs, cands) }, func() {}
 		}, []string{".", "a", "a/b", "ab"}},
+		// the view's directory does not exist (yet): Sub does not look, and whatever creates it through the parent
+		// (MkdirAll of dir/name) must be created the same way through the view
+		{"mem-missing", false, func() (hackpadfs.FS, func() []SnapEntry, func()) {
+			fs := newMem()
+			c07Prep(fs)
+			return fs, func() []SnapEntry { return Snapshot(fs, cands) }, func() {}
+		}, []string{"ab/a", "a/a/b", "b/a"}},
 		{"mount-in", false, func() (hackpadfs.FS, func() []SnapEntry, func()) {
 			root, inner := newMem(), newMem()
 			_ = hackpadfs.Mkdir(root, "a", 0o755)
@@ -214,7 +221,12 @@ func runC07(r *Rng, n int, replay string) {
 				fail(o.Kind+":success:"+outcome(a)+"-vs-"+outcome(bb), "success differs")
 				stop = true
 			case a.coq() != bb.coq() && !(a.Kind == "err" && bb.Kind == "err" && a.Err.Cls == bb.Err.Cls && a.Err.Cls == "ENOSYS"):
-				fail(o.Kind+":result:"+outcome(a)+"-vs-"+outcome(bb), "result differs")
+				if a.Kind == "err" && bb.Kind == "err" && a.Err.Cls == bb.Err.Cls && a.Err.Kind == "P" && bb.Err.Kind == "P" && bb.Err.Path == "." && a.Err.Path == dir && dir != "." {
+					// the error is about the view's own base directory (it is a file, say): the view names it by its path in the parent
+					fail(o.Kind+":base-named-in-the-parents-namespace", "the error names the view's base by its path in the parent (%q) instead of %q", dir, ".")
+				} else {
+					fail(o.Kind+":result:"+outcome(a)+"-vs-"+outcome(bb), "result differs")
+				}
 			}
 			if stop {
 				break // from here on the two worlds are in different states
